@@ -43,12 +43,56 @@ def locations(report_, asttokens_, a):
 
     # Skip any whitespace when determining the starting location.
     line = report_.lines[start_line - 1]
-    while line[start_column] == " " and start_column < len(line):
+    while start_column < len(line) and line[start_column] == " ":
         start_column += 1
 
     return (
         richreports.location((start_line, start_column)),
         richreports.location((end_line, end_column - 1)),
+    )
+
+
+def _enrich(report_, start, end, left, right, *args, **kwargs):
+    """
+    Enrich a range of the report, first normalizing the endpoints: a start
+    location at (or past) the end of a line moves to the beginning of the next
+    line and an end location before the beginning of a line moves to the end
+    of the previous line (ranges computed as "just after this node" / "just
+    before that node" fall there when an expression spans several lines).
+    Ranges that are empty or outside the report are skipped.
+    """
+    lines = report_.lines
+    (start_line, start_column) = (start[0], start[1])
+    (end_line, end_column) = (end[0], end[1])
+    while (
+        1 <= start_line < len(lines)
+        and len(lines[start_line - 1]) > 0
+        and start_column >= len(lines[start_line - 1])
+    ):
+        (start_line, start_column) = (start_line + 1, 0)
+    while 1 < end_line <= len(lines) and end_column < 0:
+        end_line -= 1
+        end_column = max(len(lines[end_line - 1]) - 1, 0)
+    if not (1 <= start_line <= len(lines) and 1 <= end_line <= len(lines)):
+        return
+    if not 0 <= start_column <= len(lines[start_line - 1]):
+        return
+    if not 0 <= end_column <= len(lines[end_line - 1]):
+        return
+    if (start_line, start_column) > (end_line, end_column):
+        return
+    # A range that holds only whitespace has nothing to decorate.
+    skip_whitespace = kwargs.get("skip_whitespace", len(args) > 1 and args[1])
+    if skip_whitespace:
+        text = []
+        for line in range(start_line, end_line + 1):
+            lo = start_column if line == start_line else 0
+            hi = end_column + 1 if line == end_line else len(lines[line - 1])
+            text.append(lines[line - 1][lo:hi])
+        if "".join(text).strip() == "":
+            return
+    report_.enrich(
+        (start_line, start_column), (end_line, end_column), left, right, *args, **kwargs
     )
 
 
@@ -91,12 +135,14 @@ def enrich_from_type(report_, type_, start, end):
         SecretBoolean,
     ) or (hasattr(type_, "__name__") and type_.__name__ == "list"):
         t_str = type_to_str(type_)
-        report_.enrich(
+        _enrich(
+    report_,
             start, end, '<span class="types-' + t_str + '">', "</span>", True, True
         )
 
     if isinstance(type_, (TypeError, TypeErrorRoot)):
-        report_.enrich(
+        _enrich(
+    report_,
             start,
             end,
             '<span class="types-' + type_.__class__.__name__ + '">',
@@ -110,7 +156,8 @@ def enrich_syntaxrestriction(report_, r, start, end):
     """
     Enrich a range within a report according to the supplied syntax restriction.
     """
-    report_.enrich(
+    _enrich(
+    report_,
         start,
         end,
         '<span class="rules-SyntaxRestriction">',
@@ -118,7 +165,8 @@ def enrich_syntaxrestriction(report_, r, start, end):
         enrich_intermediate_lines=True,
         skip_whitespace=True,
     )
-    report_.enrich(
+    _enrich(
+    report_,
         start,
         end,
         '<span class="detail" data-detail="SyntaxRestriction: ' + str(r) + '">',
@@ -133,7 +181,8 @@ def enrich_keyword(report_, start, length):
     Enrich a range within a report corresponding to a Python keyword.
     """
     (start_line, start_column) = start
-    report_.enrich(
+    _enrich(
+    report_,
         (start_line, start_column),
         (start_line, start_column + length),
         '<span class="keyword">',
@@ -153,7 +202,10 @@ def enrich_fromaudits(report_: richreports.report, atok) -> richreports.report:
         r = audits(a, "rules")
         t = audits(a, "types")
 
-        if isinstance(a, (ast.Assign, ast.AnnAssign)):
+        if isinstance(r, RuleInAncestor):
+            pass  # This node will be wrapped by an ancestor's enrichment.
+
+        elif isinstance(a, (ast.Assign, ast.AnnAssign)):
             target = a.targets[0] if hasattr(a, "targets") else a.target
             (start, end) = locations(report_, atok, target)
             if isinstance(r, SyntaxRestriction):
@@ -165,7 +217,8 @@ def enrich_fromaudits(report_: richreports.report, atok) -> richreports.report:
                     if not isinstance(t, TypeError)
                     else "TypeError: " + str(t)
                 )
-                report_.enrich(
+                _enrich(
+    report_,
                     start,
                     end,
                     '<span class="detail" data-detail="' + t_str + '">',
@@ -190,8 +243,9 @@ def enrich_fromaudits(report_: richreports.report, atok) -> richreports.report:
                 enrich_syntaxrestriction(report_, r, start, end)
             else:
                 enrich_keyword(report_, start, 6)
-                t = audits(a.value, "types")
-                report_.enrich(
+                t = audits(a.value, "types") if a.value is not None else type(None)
+                _enrich(
+    report_,
                     start,
                     start + (0, 6),
                     '<span class="detail" data-detail="' + type_to_str(t) + '">',
@@ -204,7 +258,8 @@ def enrich_fromaudits(report_: richreports.report, atok) -> richreports.report:
             enrich_keyword(report_, start, 3)
             (_, start) = locations(report_, atok, a.target)
             (end, _) = locations(report_, atok, a.iter)
-            report_.enrich(
+            _enrich(
+    report_,
                 start + (0, 1),
                 end - (0, 1),
                 '<span class="keyword">',
@@ -225,7 +280,8 @@ def enrich_fromaudits(report_: richreports.report, atok) -> richreports.report:
                 enrich_keyword(report_, start, 3)
                 (_, start) = locations(report_, atok, generator.target)
                 (end, _) = locations(report_, atok, generator.iter)
-                report_.enrich(
+                _enrich(
+    report_,
                     start + (0, 1),
                     end - (0, 1),
                     '<span class="keyword">',
@@ -240,7 +296,8 @@ def enrich_fromaudits(report_: richreports.report, atok) -> richreports.report:
                 (_, start) = locations(report_, atok, a.func.value)
                 start = start + (0, 1)
             enrich_from_type(report_, t, start, end)
-            report_.enrich(
+            _enrich(
+    report_,
                 start,
                 end,
                 '<span class="detail" data-detail="' + type_to_str(t) + '">',
@@ -254,9 +311,10 @@ def enrich_fromaudits(report_: richreports.report, atok) -> richreports.report:
                 (_, end) = locations(report_, atok, left)
                 (start, _) = locations(report_, atok, right)
                 (start, end) = (end + (0, 1), start - (0, 1))
-                report_.enrich(start, end, "<b>", "</b>", True, True)
+                _enrich(report_, start, end, "<b>", "</b>", True, True)
                 enrich_from_type(report_, t, start, end)
-                report_.enrich(
+                _enrich(
+    report_,
                     start,
                     end,
                     '<span class="detail" data-detail="' + type_to_str(t) + '">',
@@ -270,7 +328,8 @@ def enrich_fromaudits(report_: richreports.report, atok) -> richreports.report:
             (start, _) = locations(report_, atok, a.right)
             (start, end) = (end + (0, 1), start - (0, 1))
             enrich_from_type(report_, t, start, end)
-            report_.enrich(
+            _enrich(
+    report_,
                 start,
                 end,
                 '<span class="detail" data-detail="' + type_to_str(t) + '">',
@@ -284,7 +343,8 @@ def enrich_fromaudits(report_: richreports.report, atok) -> richreports.report:
             (start, _) = locations(report_, atok, a.comparators[0])
             (start, end) = (end + (0, 1), start - (0, 1))
             enrich_from_type(report_, t, start, end)
-            report_.enrich(
+            _enrich(
+    report_,
                 start,
                 end,
                 '<span class="detail" data-detail="' + type_to_str(t) + '">',
@@ -294,17 +354,21 @@ def enrich_fromaudits(report_: richreports.report, atok) -> richreports.report:
             )
 
         elif isinstance(a, ast.UnaryOp):
+            # The operator symbol: from the beginning of the node up to the
+            # character before the operand (trailing whitespace is skipped).
             (start, _) = locations(report_, atok, a)
             (end, _) = locations(report_, atok, a.operand)
-            end = end - (0, 2)
+            end = end - (0, 1)
             enrich_from_type(report_, t, start, end)
             if isinstance(a.op, ast.Not):
-                report_.enrich(start, end, "<b>", "</b>", True)
-            report_.enrich(
+                _enrich(report_, start, end, "<b>", "</b>", True, True)
+            _enrich(
+    report_,
                 start,
                 end,
                 '<span class="detail" data-detail="' + type_to_str(t) + '">',
                 "</span>",
+                True,
                 True,
             )
 
@@ -314,7 +378,8 @@ def enrich_fromaudits(report_: richreports.report, atok) -> richreports.report:
                 enrich_syntaxrestriction(report_, r, start, end)
             else:
                 enrich_from_type(report_, t, start, end)
-                report_.enrich(
+                _enrich(
+    report_,
                     start,
                     end,
                     '<span class="detail" data-detail="' + type_to_str(t) + '">',
@@ -329,7 +394,8 @@ def enrich_fromaudits(report_: richreports.report, atok) -> richreports.report:
             else:
                 if t is not None and not isinstance(t, TypeInParent):
                     enrich_from_type(report_, t, start, end)
-                    report_.enrich(
+                    _enrich(
+    report_,
                         start,
                         end,
                         '<span class="detail" data-detail="' + type_to_str(t) + '">',
